@@ -600,6 +600,8 @@ func (m *scanModel) effects(cfg smConfig, p *Path, t *smTrans) {
 	gorNow := gorStr
 	idxNow := "s.goroutineIndex"
 	pendingLast := false
+	lastBeforeAppend := false
+	var lastBeforePos token.Pos
 	var pendingPos token.Pos
 	var pendingVal *Expr
 	eff := map[string]bool{}
@@ -736,6 +738,9 @@ func (m *scanModel) effects(cfg smConfig, p *Path, t *smTrans) {
 				case vs == "(len("+gorNow+") - 1)" && (appended || f.Gne):
 					eff["index:=last"] = true
 					f.I, f.R = true, false
+					if !appended {
+						lastBeforeAppend, lastBeforePos = true, ev.Pos
+					}
 				case !appended && (vs == "len("+gorNow+")" || (vs == "0" && !cfg.Gne)):
 					// the index of the goroutine appended next: judged at the append
 					pendingLast, pendingPos, pendingVal = true, ev.Pos, v
@@ -774,6 +779,14 @@ func (m *scanModel) effects(cfg smConfig, p *Path, t *smTrans) {
 						pendingLast = false
 						eff["index:=last"] = true
 						f.I, f.R = true, false
+					}
+					if lastBeforeAppend {
+						// "last" was taken before this append: it is the goroutine before the new one
+						lastBeforeAppend = false
+						delete(eff, "index:=last")
+						eff["index:=other"] = true
+						f.I, f.R = false, false
+						problem("SM-raceidx", "state:"+cfg.State+"/index-other", "goroutineIndex is set to the last goroutine before a goroutine is appended: it refers to the goroutine before the new one, whose frames then go to the wrong goroutine", lastBeforePos)
 					}
 					m.checkNewGoroutine(cfg, p, t, ev, problem, eff)
 				} else if isEmptyPrealloc(ev.Val) {
